@@ -114,6 +114,10 @@ def default_feat():
 
 
 def _yield_choices(T, feat):
+    if not T:
+        # a scheduler whose tock is 0.0 runs everything as soon as possible and its tyme stands still: a doer that asked for
+        # a later tyme would never run again
+        return [0.0, None]
     ys = [0.0, None, T, 2 * T, T / 2, 3 * T]
     if feat.get("nondyadic", True):
         ys += [T / 3, 0.1, 1.5 * T + 0.01]
@@ -128,6 +132,8 @@ def gen_program(tape, feat):
         k = 1 + tape.draw("limit_k", 12)
         adj = tape.pick("limit_adj", [0.0, T / 3, -T / 3, T / 2])
         limit = max(T / 4, k * T + adj)
+        if not T:
+            limit = None   # tyme stands still: a limit would never be reached
     real = bool(feat["real"] and tape.flag("real", 1, 2))
     ys = _yield_choices(T, feat)
     nodes = {}
